@@ -502,6 +502,13 @@ theorem apply_unit (c : QM.Cfg) (st : QM.St) (op : QM.Op) (h1 : op ≠ .flush) (
     split
     · rename_i h; have := (hce st n true).2 _ h; exact this
     · rename_i h; have := (hce st n true).1 _ _ h; exact this
+  | postk r n b =>
+    simp only [QM.apply]
+    split
+    · rfl
+    · split
+      · rename_i h; have := (hce st n _).2 _ h; exact this
+      · rename_i h; have := (hce st n _).1 _ _ h; exact this
   | ctx r n sq b =>
     simp only [QM.apply]
     split
